@@ -227,6 +227,29 @@ impl<'a, 'tcx> D<'a, 'tcx> {
                 "\"k\":\"Or\",\"pats\":[{}]",
                 pats.iter().map(|p| self.pat(p)).collect::<Vec<_>>().join(",")
             ),
+            PatKind::Range(r) => {
+                let bound = |b: &thir::PatRangeBoundary<'tcx>| match b {
+                    thir::PatRangeBoundary::Finite(v) => v
+                        .try_to_leaf()
+                        .map(|s| esc(&format!("{}", s.to_bits_unchecked())))
+                        .unwrap_or("null".into()),
+                    thir::PatRangeBoundary::NegInfinity => "\"-inf\"".to_string(),
+                    thir::PatRangeBoundary::PosInfinity => "\"+inf\"".to_string(),
+                };
+                format!(
+                    "\"k\":\"Range\",\"lo\":{},\"hi\":{},\"inclusive\":{}",
+                    bound(&r.lo),
+                    bound(&r.hi),
+                    matches!(r.end, rustc_hir::RangeEnd::Included)
+                )
+            }
+            PatKind::Slice { prefix, slice, suffix } | PatKind::Array { prefix, slice, suffix } => format!(
+                "\"k\":\"Slice\",\"array\":{},\"prefix\":[{}],\"slice\":{},\"suffix\":[{}]",
+                matches!(&p.kind, PatKind::Array { .. }),
+                prefix.iter().map(|x| self.pat(x)).collect::<Vec<_>>().join(","),
+                slice.as_ref().map(|x| self.pat(x)).unwrap_or("null".into()),
+                suffix.iter().map(|x| self.pat(x)).collect::<Vec<_>>().join(",")
+            ),
             other => format!(
                 "\"k\":\"Other\",\"dbg\":{}",
                 esc(&format!("{other:?}").chars().take(200).collect::<String>())
